@@ -106,6 +106,10 @@ func c15Round(r *core.Run, idx int, rng *rand.Rand) {
 	case 4:
 		opts.Org, opts.Contact = &provider.Organisation{}, &provider.ContactPerson{}
 	}
+	if idx%2 == 1 {
+		// a legal time layout without fractions of a second: whatever is derived from instants repeats within a second
+		opts.TimeFormat = "2006-01-02T15:04:05Z"
+	}
 	e, err := env.New(opts)
 	if err != nil {
 		panic(err)
